@@ -6,7 +6,7 @@ import RV.Driver.Util
 
     R seed n                      → n `new` indices of the shuffle, then the new seed
     S mode dt nInner <ring> <cand>→ k, then k × (p1 p2 gx gy gz gvx gvy gvz)
-    F mode ks tree hybrid nActive nVar seed <variant: 5 flags of RmVariant + purge-flagged-at-end flag> dt t <res> nInner <ring> <parts> <given>
+    F mode ks tree hybrid nActive nVar seed <variant: 5 flags of RmVariant + purge-flagged-at-end flag + clamp-N_active-in-tree-update flag> dt t <res> nInner <ring> <parts> <given>
                                   → seed' | calls | final state        (see `fullOut`)
 
     <ring>  = N_ghost_x N_ghost_y N_ghost_z, then 27 × 6 doubles (ghost boxes i,j,k = -1..1)
@@ -111,7 +111,7 @@ def opF : Tok String := do
   let mode ← tok
   let ks ← tNat; let tree ← tNat; let hybrid ← tNat
   let nActive ← tInt; let nVar ← tNat; let seed ← tNat
-  let vb ← tMany tNat 6
+  let vb ← tMany tNat 7
   let v : RmVariant := ⟨vb.getD 0 0 != 0, vb.getD 1 0 != 0, vb.getD 2 0 != 0, vb.getD 3 0 != 0, vb.getD 4 0 != 0⟩
   let dt ← tF; let t ← tF
   let res ← tRes t
@@ -130,7 +130,7 @@ def opF : Tok String := do
   let (sh, seed') := if mode == "ordered" then (found, UInt32.ofNat seed) else shuffle (UInt32.ofNat seed) found
   let s0 : Sim (Part Float) := ⟨parts, nActive, nVar, tree != 0, hybrid != 0, 0⟩
   let (sf, calls) := processLoop v flagPart res (ks != 0 || hybrid != 0) s0 sh
-  let sf := if vb.getD 5 0 != 0 then purgeFlagged sf else sf
+  let sf := if vb.getD 5 0 != 0 then purgeFlagged (vb.getD 6 0 != 0) sf else sf
   return fullOut seed' sf calls
 
 /-- all ordered pairs passing the LINE leaf test (what LINETREE reports when nothing is pruned):
